@@ -89,6 +89,8 @@ class Evaluator:
             n = e["n"]
             if n in self.sides:
                 return ("opnd", self.sides[n])
+            if n in getattr(self, "locals", {}):
+                return self.ev(self.locals[n])          # a const local stands for its initialiser
             if e.get("q", "").endswith("strong_ordering::equal") or n == "equal":
                 return ("ordering", "=")
             raise NotModelled("reference to " + n)
@@ -387,6 +389,11 @@ class Evaluator:
         if k == "decl":
             for v in s["vars"]:
                 if "other" in v:
+                    continue
+                if v.get("const") and v.get("init") is not None and not v.get("ref") and not v.get("bindings"):
+                    if not hasattr(self, "locals"):
+                        self.locals = {}
+                    self.locals[v["n"]] = v["init"]
                     continue
                 raise NotModelled("local variable")
             return None
